@@ -68,7 +68,10 @@ class LtlAstParserVisitor(LtlParserVisitor):
         # Identifier is a constant
         if id in self.const_val_dict:
             val = self.const_val_dict[id]
-            node = Constant(float(val))
+            try:
+                node = Constant(float(val))
+            except (TypeError, ValueError):
+                raise RTAMTException('The value of the constant {0} is not a number: {1}'.format(id, val))
             self.phi_name_to_node_dict[node.name] = node
         # Identifier is either an input variable or a sub-formula
         elif id in self.var_subspec_dict:
